@@ -554,6 +554,9 @@ namespace
             if (MD->isStatic())
                 O["static"] = true;
         }
+        // [[noreturn]] / __attribute__((noreturn)): abort, __assert_fail, std::terminate, throwing helpers
+        if (FD->isNoReturn())
+            O["noret"] = true;
         O["cret"] = typeStr(FD->getReturnType());
         O["cretc"] = typeStr(FD->getReturnType().getCanonicalType());
         {
